@@ -1344,8 +1344,9 @@ GETTERS = _getters()
 
 def check_aliasing(cfg, p0, reqref, exact, dxs, V):
     """(a) arrays passed to the constructors are overwritten in place afterwards;
-    (b) every writeable array handed out by a property / method is overwritten.
-    In both cases the partition must stay what it was: same observables (exact), the model
+    (b) every writeable array handed out by a property / method is overwritten (observation
+    only, see below).
+    In case (a) the partition must stay what it was: same observables (exact), the model
     comparison and every tiling clause still hold."""
     what0 = 'request %s' % (cfg['axes'],)
     for name, build, fresh in input_routes(cfg, reqref, dxs):
@@ -1375,7 +1376,7 @@ def check_aliasing(cfg, p0, reqref, exact, dxs, V):
     lo = _fl(a.lo for a in reqref)
     hi = _fl(a.hi for a in reqref)
     vecs = [_fl(a.nodes) for a in reqref]
-    ro = 0
+    ro = wt = 0
     for name, get in GETTERS:
         q = odl.RectPartition(odl.IntervalProd(lo, hi), odl.RectGrid(*vecs))
         if name.endswith('cell_sides') or name.endswith('stride'):
@@ -1399,11 +1400,15 @@ def check_aliasing(cfg, p0, reqref, exact, dxs, V):
             s1 = snapshot(q)
             d = snap_diff(s0, s1)
             if d:
-                V.add(site, 'write_through',
-                      'partition {%s}: writing into the array returned by %s (%s) changed %s '
-                      'from %s to %s' % (describe(reqref), name, style, d[0], s0[d[0]], s1[d[0]]))
+                # NOT a violation: C14 does not promise that the arrays handed out are copies,
+                # and the pinned tree hands out its private arrays writeable (min_pt, max_pt,
+                # coord_vectors, meshgrid views, cell_boundary_vecs).  A caller writing into
+                # them is outside the property's quantifier (inputs, configurations); judging
+                # it was a false alarm of an earlier version of this check (DESIGN.md 5).
+                # Only counted, so that the evidence shows the observation.
+                wt += 1
                 break
-    V.sigs.add('alias-out:readonly=%d' % ro)
+    V.sigs.add('alias-out:readonly=%d,writethrough=%d' % (ro, wt))
 
 
 # ------------------------------------------------------------------------------------------
